@@ -492,6 +492,7 @@ func writeEvidence(plan Plan, tier string, seed int, results []*RunResult, incon
 		"solver":                        solverVersion(),
 		"cross_checked_unsat":           crossChecked,
 		"cross_check_disagreements":     crossDisagree,
+		"cross_check_timeouts":          crossTimeout,
 		"runs":                          runs,
 		"bounds":                        bounds,
 		"outside_bounds":                plan.Outside,
